@@ -74,6 +74,9 @@ pub struct RunCfg {
     /// slow link: a write stays pending for a random *simulated* duration (1 ms .. 6 s), so that
     /// the client's timers run while a packet is partially written
     pub p_slow_write: u32,
+    /// stalled peer: an inbound delivery is cut inside a packet and the rest (and everything
+    /// behind it) arrives 1 ms .. 40 s later, or not before the benign continuation
+    pub p_peer_stall: u32,
     /// writes/flushes never stall or fail; used by timing profiles
     pub zero_time_io: bool,
     // broker policy (per mille)
@@ -200,6 +203,9 @@ pub struct ConnState {
     pub unflushed_from: usize, // index into packets of first packet not yet flushed
     // broker -> client
     pub rx_ready: VecDeque<u8>,
+    /// inbound bytes held back by a peer that stalled in the middle of a packet
+    pub rx_held: VecDeque<u8>,
+    pub rx_hold: bool,
     pub rx_total_enqueued: usize,
     pub rx_consumed: usize,
     pub rx_items: VecDeque<RxItem>,
@@ -276,6 +282,8 @@ impl ConnState {
             saw_disconnect: false,
             unflushed_from: 0,
             rx_ready: VecDeque::new(),
+            rx_held: VecDeque::new(),
+            rx_hold: false,
             rx_total_enqueued: 0,
             rx_consumed: 0,
             rx_items: VecDeque::new(),
@@ -434,6 +442,8 @@ pub enum Event {
     Close { conn: usize },
     /// a slow write becomes possible again (nothing to do but wake the client)
     Unblock { conn: usize },
+    /// the stalled peer continues: held-back inbound bytes become readable
+    ReleaseHeld { conn: usize },
 }
 
 #[derive(Default, Clone, Debug)]
@@ -511,6 +521,8 @@ pub struct World {
     pub sim_time_max: u64,
     /// twin runs: tags of cancelled requests that are known never to have been enqueued
     pub never_enqueued: Vec<u32>,
+    /// the broker answered the last CONNACK with Session Expiry Interval 0
+    pub broker_session_expiry_zero: bool,
     /// twin runs: the next operation is not cancelled (last attempt of a repeated disconnect)
     pub no_cancel: bool,
     pub qos0_cancelled: bool,
@@ -594,6 +606,7 @@ impl World {
             op_label: "",
             sim_time_max: 0,
             never_enqueued: Vec::new(),
+            broker_session_expiry_zero: false,
             no_cancel: false,
             qos0_cancelled: false,
             burn_done: false,
@@ -727,11 +740,35 @@ impl World {
                     c.rx_items.push_back(RxItem { end, meta });
                 }
                 c.rx_total_enqueued += bytes.len();
-                c.rx_ready.extend(bytes.iter());
+                if c.rx_hold {
+                    // the peer is stalled: everything queues up behind the cut packet
+                    c.rx_held.extend(bytes.iter());
+                    self.log(|| format!("broker->client c{} {} bytes held back behind the stalled packet: {}", conn, bytes.len(), crate::util::hex(&bytes)));
+                    return;
+                }
+                let stall = !self.benign && bytes.len() >= 2 && self.cfg.p_peer_stall > 0 && { let p = self.cfg.p_peer_stall; self.s_chance(p, 1000) };
+                if stall {
+                    let k = 1 + self.s_choose(bytes.len() as u32 - 1) as usize;
+                    let d = [Some(clock::US_PER_MS), Some(500 * clock::US_PER_MS), Some(2 * clock::US_PER_S), Some(6 * clock::US_PER_S), Some(40 * clock::US_PER_S), None][self.s_choose(6) as usize];
+                    let c = &mut self.conns[conn];
+                    c.rx_ready.extend(bytes[..k].iter());
+                    c.rx_held.extend(bytes[k..].iter());
+                    c.rx_hold = true;
+                    if let Some(d) = d {
+                        self.schedule(d, Event::ReleaseHeld { conn });
+                    }
+                    self.fault("peer_stalls_inside_packet");
+                    self.kind(22);
+                    self.log(|| format!("broker->client c{} {} bytes, the peer stalls after {} of them for {:?} us: {}", conn, bytes.len(), k, d, crate::util::hex(&bytes)));
+                    return;
+                }
+                self.conns[conn].rx_ready.extend(bytes.iter());
                 self.kind(20);
                 self.log(|| format!("broker->client c{} {} bytes: {}", conn, bytes.len(), crate::util::hex(&bytes)));
             }
+            Event::ReleaseHeld { conn } => self.release_held(conn),
             Event::Close { conn } => {
+                self.release_held(conn);
                 let c = &mut self.conns[conn];
                 if !c.closed_by_broker {
                     c.closed_by_broker = true;
@@ -743,6 +780,16 @@ impl World {
             Event::Unblock { conn } => {
                 let _ = conn;
             }
+        }
+    }
+
+    pub fn release_held(&mut self, conn: usize) {
+        let c = &mut self.conns[conn];
+        if c.rx_hold {
+            c.rx_hold = false;
+            let held = std::mem::take(&mut c.rx_held);
+            c.rx_ready.extend(held);
+            self.log(|| format!("the stalled peer of c{conn} continues"));
         }
     }
 
